@@ -72,7 +72,7 @@ def run(ctx):
     # ---- (a) module_id --------------------------------------------------------------------------------------
     req, got = [], []
     FR = ["/", "a", "b", "-", "_", ".", " ", "x.html", "sub", "\u00e9", "\u0416", "~", "+", "%20", "1", "__", "\u65e5", ":", "@"]
-    na = 600 if tier == "quick" else 20000
+    na = 600 if tier == "quick" else 200000
     for _ in range(na):
         u = "/" + "".join(rng.choice(FR) for _ in range(rng.randint(1, 6)))
         try:
@@ -88,7 +88,7 @@ def run(ctx):
     # ---- (b) the registry ---------------------------------------------------------------------------------------
     req2, got2 = [], []
     POOL = ["/a-b.html", "/a_b.html", "/a b.html", "/a.b.html", "/c.html", "/c_html", "/d/e.html", "/d_e.html", "/d/e_html", "/f.html"]
-    nb = 120 if tier == "quick" else 4000
+    nb = 120 if tier == "quick" else 20000
     for _ in range(nb):
         uris = rng.sample(POOL, rng.randint(2, 4))
         live = [Template("text %d ${x}" % i, uri=u) for i, u in enumerate(uris)]
@@ -203,7 +203,7 @@ def run(ctx):
                     if o != want:
                         ctx.violation({"template": src, "path": path, "rendered": o, "expected": want}, "get_def(name).render()", tags=["c08.get_def"])
             # a fresh interpreter on the existing module file, under several hash seeds; mako-render
-            seeds = ["0", "1", "2"] if tier == "quick" else [str(i) for i in range(16)]
+            seeds = ["0", "1", "2"] if tier == "quick" else [str(i) for i in range(32)]
             if name in ("many-names", "defs", "unicode", "code", "two-imports", "latin1") or tier != "quick":
                 sub_outs, sub_codes = {}, {}
                 for seed in seeds:
